@@ -35,6 +35,23 @@ func LoadStore(db dbm.DB, id types.CommitID, pruning types.PruningOptions, lazyL
 		return nil, err
 	}
 
+	if id.Version == 0 {
+		// The multistore has never committed this store (no commit info names it). Versions
+		// found in the database were saved by a commit that was interrupted before its commit
+		// info was written; LoadVersion(0) would load the latest of them and the re-executed
+		// block would start from the interrupted block's state (different app hash).
+		// Discard them so that the store starts from the empty tree.
+		if tree.ndb.getLatestVersion() > 0 {
+			if err = tree.ndb.DeleteVersionsFrom(1); err != nil {
+				return nil, err
+			}
+			if err = tree.ndb.Commit(); err != nil {
+				return nil, err
+			}
+			tree.ndb.resetLatestVersion(0)
+		}
+	}
+
 	if lazyLoading {
 		_, err = tree.LazyLoadVersion(id.Version)
 	} else {
